@@ -579,9 +579,18 @@ def check_C15(tier, nproc=None):
                 if tier == 'quick' and w2 != w3:
                     continue
                 c.add(Job('vH_C15_three', [('tmpl', 'a', a), ('tmpl', 'b', b), ('tmpl', 'c', cc), ('int', w1), ('int', w2), ('int', w3)], weight=200, opts=o))
+    # the caller's input buffer is reused between the calls (second document written over the first)
+    AL = [([b'{"', 2, b'":', 1, b'}'], 1), ([b'[{"', 1, b'":1},{"', 1, b'":2}]'], 2), ([b'["', 2, b'",', 1, b']'], 2), ([b'{"a":{"', 1, b'":"', 1, b'"}}'], 1), ([b' [', 1, b',"', 1, b'\\n"]'], 2)]
+    for a, wa in AL:
+        for b, wb in AL:
+            if tier == 'quick' and wa != wb:
+                continue
+            for w1, w2 in ((0, 0), (wa, wb)):
+                c.add(Job('vH_C15_alias', [('tmpl', 'a', a), ('tmpl', 'b', b), ('int', w1), ('int', w2)], weight=150, opts=o))
     c.bounds = {'histories': 'two calls (and selected three-call sequences) on one reader; documents from %d x %d templates with symbolic bytes; all ReadValue/ReadObject/ReadArray combinations listed' % (len(A), len(B)),
                 'first_docs': [_tmplstr(t) for t in A], 'second_docs': [_tmplstr(t) for t in B]}
-    c.must_reach = ['C15.second-call', 'C15.second-ok', 'C15.first-ok', 'C15.third-call']
+    c.bounds['reused_input_buffer'] = 'second document copied over the first one (same backing array) before the second call: %d template pairs' % len(AL) ** 2
+    c.must_reach = ['C15.second-call', 'C15.second-ok', 'C15.first-ok', 'C15.third-call', 'C15.alias-second-call', 'C15.alias-second-ok']
     _std(c, ['number contract as in C03', 'sync.Pool.Get returns the most recently Put reader (the functional alternative "returns nil" equals the fresh-reader run)'])
     c.outside = ['histories longer than three calls', 'documents outside the templates', 'GC-driven pool eviction timing']
     c.run_jobs(nproc)
@@ -660,8 +669,14 @@ def check_C04(tier, nproc=None):
     if tier != 'quick':
         T += [[(22, D), 1], [(1, D), b'.', (21, D)], [b'0.', (22, D)], [(9, D), b'.', (11, D), b'e', (2, D), 1], [(1, D), b'e-', (6, D)], [b'-', 1, b'.', 1, b'e', 1, 1, 1],
               [(19, D), 1, (2, D)], [(16, D), 2, (3, D), 1]]
+    # literals far longer than any exponent cap could anticipate: 100 005 zeros and an exponent that brings the value
+    # back to a single digit (the scanner and decimal.set must keep accumulating the exponent; fix f8cd401)
+    Z = b'0'
+    TL = [[b'0.' + Z * 100005, (1, D), b'e100006']] + ([[(1, D), Z * 100005, b'e-100005'], [b'-', (1, D), b'.', Z * 20003, (1, D), b'E+20001']] if tier != 'quick' else [])
     for t in T:
         c.add(Job('vH_FP_scan', [('tmpl', 'd', t)], pkg=FP, weight=4000, opts={'scanvalue': True}))
+    for t in TL:
+        c.add(Job('vH_FP_scan', [('tmpl', 'd', t)], pkg=FP, weight=200000, opts={'scanvalue': True, 'nsamples': 1}))
     # tier 3: Eisel-Lemire, one obligation set per table row (all 2^63 normalised mantissas per row)
     o = {'bits_intrinsics': True}
     rows = list(range(-348, 348))
@@ -756,7 +771,10 @@ def check_C04(tier, nproc=None):
                 c.add(Job('vH_FP_round', [('int', nd), ('int', dp), ('bool', tr)], pkg=FP, weight=100, opts={'scanvalue': True, 'nsamples': 1}))
     for t in S6:
         c.add(Job('vH_FP_set', [('tmpl', 'd', t)], pkg=FP, weight=400, opts={'scanvalue': True, 'nsamples': 2, 'ex.ite_merging': False}))
+    for t in TL[:1] + TL[2:]:   # (the 100 006-integer-digit literal is left to the scanner: set's obligation with 99 206 dropped digits is 'unknown' to the integer back end)
+        c.add(Job('vH_FP_set', [('tmpl', 'd', t)], pkg=FP, weight=200000, opts={'scanvalue': True, 'nsamples': 1, 'ex.ite_merging': False}))
     c.bounds = {'scanner_all_strings': N, 'scanner_templates': [_tmplstr(t) for t in T],
+                'very_long_literals (scanner and decimal.set)': [_tmplstr(t)[:12] + '...' + _tmplstr(t)[-14:] + ' (%d bytes)' % sum(len(x) if isinstance(x, bytes) else (x if isinstance(x, int) else x[0]) for x in t) for t in TL],
                 'left_shift_unit': 'leftShift(a, k) for k in %s on every normalised decimal of %s digits: result = value*2^k exactly, normalised, not truncated' % (('1..60' if tier != 'quick' else ks), nds),
                 'glue_templates': [_tmplstr(t) for t in G],
                 'right_shift_unit': 'rightShift(a, k) for k in %s on every normalised decimal of %s digits (k > 12: one digit)' % (rks, rnds),
